@@ -152,7 +152,8 @@ def gen_workspace(root, rng, depth=None, n_names=None, venv=None, collisions=Tru
                 continue
             ws.features.add(("role", role))
             if role == "defines":
-                s, _ = fixture_src(ws, n, rng, scope=rng.choice([None, None, "module", "session"]))
+                s, _ = fixture_src(ws, n, rng, scope=rng.choice([None, None, "class", "module", "package", "session"]),
+                                   autouse=rng.random() < 0.1)
                 body.append(s + "\n")
             elif role == "overrides":
                 ml = allow_multiline and rng.random() < 0.2
@@ -212,6 +213,13 @@ def gen_workspace(root, rng, depth=None, n_names=None, venv=None, collisions=Tru
                 imports.append("pytest_plugins = (" + ", ".join(f'"{p}"' for p in plugins) + ",)\n")
             else:
                 imports.append("pytest_plugins: list[str] = [" + ", ".join(f'"{p}"' for p in plugins) + "]\n")
+        if rng.random() < 0.4:
+            # a broad-scoped fixture requesting one of the names (which may or may not be visible from here)
+            dep = rng.choice(names)
+            sw, _ = fixture_src(ws, f"wide{ws.uid()}", rng, scope=rng.choice(["session", "module", "package", "class"]),
+                                extra_deps=[dep])
+            body.append(sw + "\n")
+            ws.features.add(("broad_scoped_dependent",))
         has_conf = bool(body or imports) or rng.random() < 0.3
         if has_conf:
             ws.files[os.path.join(d, "conftest.py")] = "".join(conf + imports + ["\n"] + body)
@@ -234,7 +242,8 @@ def gen_workspace(root, rng, depth=None, n_names=None, venv=None, collisions=Tru
             sbody = [HEADER]
             for n in names:
                 if rng.random() < 0.6:
-                    s, _ = fixture_src(ws, n, rng)
+                    s, _ = fixture_src(ws, n, rng, scope=rng.choice([None, "class", "module", "session"]),
+                                       autouse=rng.random() < 0.15)
                     sbody.append(s + "\n")
             ws.files[os.path.join(sd, "conftest.py")] = "".join(sbody)
             ws.files[os.path.join(sd, "test_probe.py")] = probe_src(ws, names, rng, None, probe_kinds)
